@@ -280,13 +280,16 @@ def run_svmc(prop, tier, jobs, level="model_checking", extra_assumptions=()):
 # plans
 
 def plan_C01(prop, tier):
-    fl = ("NM", "MO", "TR") if tier == "quick" else ("NM", "TM", "MO", "CO", "TR", "INT")
+    fl = ("NM", "TM", "CO", "MO", "TR") if tier == "quick" else ("NM", "TM", "MA", "MC", "CO", "MO", "MOT", "TR", "INT")
     cfgs = grid(fl, W1_NS[tier], (1,)) + grid(("NM",), (0, 2), (0,))
     # un-quotiented cross-check of the (size, capacity) abstraction: all histories up to depth 4
     # (thorough: 5) over a reduced alphabet, without state merging, against the quotient graph
     jobs = w1_jobs(tier, cfgs, G_ALL, 0, unq=4 if tier == "quick" else 5)
-    jobs += w2_jobs(tier, ("NM", "TR"), W2_PAIRS[tier], (-1, 0, 7), 0)
-    jobs += w2_jobs(tier, ("MO",), W2_PAIRS[tier], (0,), 0)
+    # every allocator configuration: the copy/move/swap paths are selected by the traits, and a wrong
+    # *value* result there is C01's to report
+    jobs += w2_jobs(tier, ("NM",), W2_PAIRS[tier], W2_ACFGS[tier], 0)
+    jobs += w2_jobs(tier, ("TM", "TR"), W2_PAIRS[tier], (-1, 0, 2, 7), 0)
+    jobs += w2_jobs(tier, ("MO",), W2_PAIRS[tier], (0, 7), 0)
     if tier == "thorough":
         # the same exploration with the header compiled by clang++ (C++17 and C++20)
         for cfg in (("NM", 2, 1), ("TR", 2, 1), ("MO", 0, 1), ("CO", 3, 1)):
@@ -297,7 +300,7 @@ def plan_C01(prop, tier):
 
 
 def plan_C02(prop, tier):
-    fl = ("NM", "TM", "MO", "TR") if tier == "quick" else ("NM", "TM", "MO", "MOT", "CO", "TR", "INT")
+    fl = ("NM", "TM", "CO", "MO", "TR") if tier == "quick" else ("NM", "TM", "MA", "MC", "SW", "MO", "MOT", "CO", "TR", "INT")
     cfgs = grid(fl, W1_NS[tier], (1,)) + grid(("NM", "INT"), (0, 2), (0,))
     jobs = w1_jobs(tier, cfgs, G_ALL, 1)
     jobs += w2_jobs(tier, ("NM", "TM"), W2_PAIRS[tier], tuple(range(8)) + (15,), 1)
@@ -326,7 +329,7 @@ def plan_C03(prop, tier):
 
 
 def plan_C04(prop, tier):
-    fl = ("NM", "TM", "TR") if tier == "quick" else ("NM", "TM", "MO", "CO", "TR", "INT")
+    fl = ("NM", "TM", "CO", "MO", "TR") if tier == "quick" else ("NM", "TM", "MA", "MC", "MO", "MOT", "CO", "TR", "INT")
     cfgs = grid(fl, W1_NS[tier], (1,)) + grid(("NM", "INT"), W1_NS[tier], (0,))
     jobs = w1_jobs(tier, cfgs, G_ALL, 1)
     jobs += w2_jobs(tier, ("NM",), W2_PAIRS[tier], W2_ACFGS[tier], 1)
@@ -348,7 +351,7 @@ def plan_C05(prop, tier):
 
 
 def plan_C06(prop, tier):
-    fl = ("NM", "TM", "MO", "CO") if tier == "quick" else ("NM", "TM", "MO", "MOT", "CO", "TR")
+    fl = ("NM", "TM", "MA", "MC", "MO", "CO") if tier == "quick" else ("NM", "TM", "MA", "MC", "SW", "MO", "MOT", "CO", "TR")
     cfgs = grid(fl, W1_NS[tier], (1,)) + grid(("TM",), (0, 2), (0,))
     # second (post-fault) witness per shape: the whole alphabet is applied again from a state that
     # was reached through a thrown exception, and must behave like the first witness
@@ -359,7 +362,7 @@ def plan_C06(prop, tier):
 
 
 def plan_C10(prop, tier):
-    fl = ("NM", "MO", "TR") if tier == "quick" else ("NM", "TM", "MO", "CO", "TR", "INT")
+    fl = ("NM", "TM", "CO", "MO", "TR") if tier == "quick" else ("NM", "TM", "MA", "MO", "MOT", "CO", "TR", "INT")
     cfgs = grid(fl, W1_NS[tier], (1,)) + grid(("NM",), (0, 2), (0,))
     focus = G_ALL & ~(G_CTOR | G_OBS)
     jobs = w1_jobs(tier, cfgs, focus, 0)
@@ -369,14 +372,14 @@ def plan_C10(prop, tier):
 
 
 def plan_C11(prop, tier):
-    fl = ("NM", "CO", "TR", "INT") if tier == "quick" else ("NM", "TM", "CO", "TR", "INT")
+    fl = ("NM", "TM", "CO", "TR", "INT") if tier == "quick" else ("NM", "TM", "MA", "MC", "CO", "TR", "INT")
     cfgs = grid(fl, W1_NS[tier], (1,)) + grid(("NM", "INT"), (0, 2), (0,))
     focus = G_APPEND1 | G_INSERT1 | G_INSERTN | G_RESIZE
     return run_svmc(prop, tier, w1_jobs(tier, cfgs, focus, 0))
 
 
 def plan_C15(prop, tier):
-    fl = ("NM", "MO", "TR") if tier == "quick" else ("NM", "TM", "MO", "MOT", "CO", "TR", "INT")
+    fl = ("NM", "TM", "MO", "TR") if tier == "quick" else ("NM", "TM", "MO", "MOT", "CO", "TR", "INT")
     cfgs = grid(fl, W1_NS[tier], (1,)) + grid(("NM",), (0, 2), (0,))
     focus = G_INSRANGE | G_ASSIGN | G_APPENDR | G_CTOR
     return run_svmc(prop, tier, w1_jobs(tier, cfgs, focus, 1))
@@ -408,7 +411,7 @@ LONGRUN = Bin("longrun", "longrun_main.cpp", std="17", opt="-O2")
 
 
 def plan_C14(prop, tier):
-    fl = ("NM", "TR") if tier == "quick" else ("NM", "TM", "MO", "TR", "INT")
+    fl = ("NM", "TM", "MO", "TR") if tier == "quick" else ("NM", "TM", "MO", "CO", "TR", "INT")
     cfgs = grid(fl, W1_NS[tier], (1,)) + grid(("NM",), (0, 2), (0,))
     focus = G_APPEND1 | G_INSERT1 | G_INSERTN | G_INSRANGE | G_RESIZE | G_CAP | G_ASSIGN | G_APPENDR
     jobs = w1_jobs(tier, cfgs, focus, 0) + w3_jobs(tier)
